@@ -371,6 +371,25 @@ pub fn load(dir: &Path, tier: Tier) -> Result<Catalogue, String> {
         }
     }
 
+    // large: 33-50 KB well-formed programs (anything with a size threshold around 32 KiB); used
+    // by the simulator at low weight with coarse schedules
+    let mut n_large = 0;
+    for (k, (unit, reps)) in [
+        ("data a; x=1; run;\n", 2000usize),
+        ("%let a=&b;\n", 3200),
+        ("%m(a=1,b=2);\n", 2700),
+        ("proc sort data=a; by x; run;\n", 1200),
+        ("x='it''s'; y=\"&z\";\n", 1800),
+        ("%if &a %then %do; %put b; %end;\n", 1100),
+    ]
+    .iter()
+    .enumerate()
+    {
+        if push(&mut sources, format!("G{k:02}"), unit.repeat(*reps)) {
+            n_large += 1;
+        }
+    }
+
     // long: 0.1 - 1.5 MB (capacity heuristics at scale, u32 arithmetic, recursion depth,
     // anything capped or sized by the source length). Reference passes and sweeps only.
     let mut n_long = 0;
@@ -413,6 +432,7 @@ pub fn load(dir: &Path, tier: Tier) -> Result<Catalogue, String> {
             ("generated-prefixes", n_gen_prefix),
             ("mutated", n_mut),
             ("medium", n_medium),
+            ("large", n_large),
             ("long", n_long),
         ],
     })
